@@ -3,7 +3,7 @@
    functions map to OCaml's); nat, positive, N, Z and byte stay the extracted inductives. *)
 From Coq Require Extraction.
 From Coq Require Import ExtrOcamlBasic.
-From KV Require Import Lib.Bytes Model.Date Spec.Calendar Model.Router Spec.RouterSpec Model.Headers Spec.HeaderStore Model.Parser Spec.HttpGrammar Model.Body Spec.ChunkedSpec Model.Server Spec.Framing Spec.ConnSpec Spec.ConnKnown Model.Printer Spec.MessageSpec Model.Pool.
+From KV Require Import Lib.Bytes Model.Date Spec.Calendar Model.Router Spec.RouterSpec Model.Headers Spec.HeaderStore Model.Parser Spec.HttpGrammar Model.Body Spec.ChunkedSpec Model.Server Spec.Framing Spec.ConnSpec Spec.ConnKnown Model.Printer Spec.MessageSpec Model.Pool Model.Epoll.
 
 Extraction Language OCaml.
 Extraction "model.ml"
@@ -19,4 +19,5 @@ Extraction "model.ml"
   ChunkedSpec.spec_decode ChunkedSpec.spec_fixed
   Server.serve_conn Server.reader_payload ConnSpec.spec_conn Framing.rfc_framing ConnSpec.raw_fields ConnKnown.known_F20c ConnKnown.known_F21
   Printer.write_response_empty Printer.write_response_bytes Printer.write_response Printer.write_request MessageSpec.decode_msg Headers.add Headers.new_nodate
-  Pool.run Pool.first_rejected Pool.pool_init.
+  Pool.run Pool.first_rejected Pool.pool_init
+  Epoll.replay Epoll.ep_init Epoll.all_ended Epoll.live_records Epoll.open_streams.
